@@ -1333,7 +1333,7 @@ func run(c *hx.Ctx) {
 		doCase(cs)
 	}
 	doCase(longLine(c.Seed))
-	n := c.Scale(105, 2000)
+	n := c.Scale(90, 2000)
 	for i := 0; i < n; i++ {
 		g := c.R.Fork()
 		cs := poolsim.Case{Seed: g.U64(), Regime: []int{2, 1, 2, 5}[i%4], Opts: chaingen.GenOpts{Blocks: 7 + g.Intn(9), Branchiness: 2 + g.Intn(3), TxPerBlock: 1 + g.Intn(3), Jitter: g.Intn(3)}}
